@@ -28,7 +28,7 @@ def one(name):
         for t in ("with", "without"):
             os.makedirs(f"{tmp}/{t}")
             subprocess.run(f"git -C {REPO} archive HEAD src | tar -x -C {tmp}/{t}", shell=True, check=True)
-        r = sh("patch", "-p1", "-s", "--no-backup-if-mismatch", "-d", f"{tmp}/with", "-i", f"{src}/patch.diff")
+        r = sh("patch", "-p1", "-s", "-F0", "--no-backup-if-mismatch", "-d", f"{tmp}/with", "-i", f"{src}/patch.diff")
         if r.returncode != 0:
             return name, "NOAPPLY", r.stdout[:200]
         if sh("diff", "-rq", f"{tmp}/with/src", f"{tmp}/without/src").returncode == 0:
